@@ -15,8 +15,8 @@ from pel.peltool import peltool
 FUNCTIONS = ["peltool.main (-f / -j branches)", "peltool.parseAndWriteOutput", "peltool.parseAndPrintPELFile",
              "peltool.parsePEL", "peltool.considerPEL"]
 HARNESSES = [
-    {"fn": "h_json_clean", "cases": ["good", "good/E", "good/H", "good/s", "trunc", "trunc/E", "junk", "two", "two/E"],
-     "quick_cases": ["good", "good/H", "trunc/E", "two/E"], "timeout": {"quick": 90, "thorough": 300}},
+    {"fn": "h_json_clean", "cases": ["good", "good/E", "good/H", "good/s", "trunc", "trunc/E", "junk", "two", "two/E", "good/E:leftover"],
+     "quick_cases": ["good", "good/H", "trunc/E", "two/E", "good/E:leftover"], "timeout": {"quick": 90, "thorough": 300}},
     {"fn": "h_file_clean", "cases": ["good", "good/E", "good/H", "good:hex/E", "trunc", "trunc/E", "junk"],
      "quick_cases": ["good", "good:hex/E", "trunc/E", "junk"], "timeout": {"quick": 90, "thorough": 300}},
 ]
@@ -59,7 +59,7 @@ def _kind():
 
 
 def _opts():
-    sel = CASE.split("/")[1] if "/" in CASE else ""
+    sel = CASE.split("/")[1].split(":")[0] if "/" in CASE else ""
     return dict(clean=bool(sym_bool("clean")), every_pel="E" in sel, hidden="H" in sel, serviceable="s" in sel)
 
 
@@ -75,6 +75,7 @@ def h_json_clean() -> bool:
     post: _
     """
     kind = CASE.split("/")[0]
+    leftover = CASE.endswith(":leftover")
     sev, flags = _sevflags()
     fault = sym_int("fault", 0, 4)
     o = _opts()
@@ -82,6 +83,10 @@ def h_json_clean() -> bool:
     if kind == "two":
         files.append(("b.pel", _pel(0x50000002, 0x40, 0xA800)))
     w = World(files=files, fault_at=fault, dirs=["/out"], fault_kind=_kind())
+    if leftover:
+        # history: an earlier run failed half-way and left a partial output file behind
+        w.extra["/out/a.pel.50000001.json"] = '{\n    "Private Header": {'
+
     ns = Namespace(**dict(ARG_DEFAULTS, path="/pels", json=True, output_dir="/out", **o))
     try:
         status = run_main(peltool, w, ns)
